@@ -6,7 +6,12 @@ Property theorems (`c06_*`) over Model/Ack.lean and Model/Frames.lean. They hold
 (`run (init …) ops`, any list of `Op`: the network adversary, the timers and the interleaving of
 the endpoints are unrestricted). Two levels: the Listener level (`delivered`: accepted by
 `_recv_one`, acknowledged) and the application level (`handled`: taken by the loop body / returned
-by `Bridge.recv_events`). Helper lemmas: Lemmas/C06Inv.lean (the 17-conjunct invariant `Inv`, its
+by `Bridge.recv_events`). An acknowledged message travels in one of TWO wire shapes
+(`dataFrames`): `[Syn, pickled message]` (`ReliableSender.send`) or, for a DatasetTransmitPayload
+(message ids ≥ `dataBase`), `[Syn, pickled header, raw value]` (`comms.send_data`); what the
+destination's `_recv_one` returns for message `m` is `bodyOf m` (`Parsed.msg (.app m)` resp.
+`Parsed.payload m (.msg (.app m))`). Every history theorem covers both shapes; the section "both
+wire shapes" states that deduplication does not depend on the shape. Helper lemmas: Lemmas/C06Inv.lean (the 17-conjunct invariant `Inv`, its
 preservation by every step, the monotone facts `Later`, the retry-budget potential `Prog`),
 Lemmas/C06App.lean (`InvA`: where an accepted message is; `InvF`: what survives forged frames),
 Lemmas/C06Time.lean (the deadline potential `ProgT`), Lemmas/C06Forged.lean (`InvM`: accepted messages
@@ -39,8 +44,9 @@ def accountedAt (s : Sys) (b : Nat) : List Delivery :=
 /-- accepted, not yet handed over, not discarded: the iteration in progress will hand it over -/
 def pendingAt (s : Sys) (b : Nat) : List Delivery := (s.ep b).staged ++ payloads (s.ep b).batch
 
-/-- the delivery that message `m`, sent under `Syn(i, a)`, gives rise to -/
-def dlv (i a m : Nat) : Delivery := ⟨some (i, a), Parsed.msg (Msg.app m)⟩
+/-- the delivery that message `m`, sent under `Syn(i, a)`, gives rise to (`bodyOf m`: the message
+itself, or header + value for a payload id) -/
+def dlv (i a m : Nat) : Delivery := ⟨some (i, a), bodyOf m⟩
 
 namespace Aux
 
@@ -97,12 +103,13 @@ end Aux
 
 /-- **At most once.** In every reachable state, at every endpoint `b`: no two deliveries arrived
 under the same `Syn(idx, addr)`, and a message delivered under `Syn(i, a)` is exactly the message
-`m` that `a`'s `send` accepted under idx `i`, addressed to `b`. -/
+`m` that `a`'s `send` accepted under idx `i`, addressed to `b` — in either wire shape (`bodyOf m`:
+for `m < dataBase` this is `Parsed.msg (Msg.app m)`, for a payload id `Parsed.payload m …`). -/
 theorem c06_at_most_once {s : Sys} (h : Reachable s) (b : Nat) :
     ((s.ep b).delivered.filterMap (·.syn)).Nodup ∧
     ∀ d ∈ (s.ep b).delivered, ∀ i a, d.syn = some (i, a) →
       ∃ host m, (s.ep a).log i = some (host, m) ∧ (s.ep a).hosts0 host = some b ∧
-        d.body = Parsed.msg (Msg.app m) := by
+        d.body = bodyOf m := by
   have hi := Aux.reachable_inv h
   exact ⟨hi.del_nodup b, fun d hd i a hs => (hi.del_ok b d i a hd hs).1⟩
 
@@ -287,7 +294,7 @@ theorem c06_no_silent_loss {s : Sys} (h : Reachable s) (a i : Nat) (hlt : i < (s
     ∃ host m, (s.ep a).log i = some (host, m) ∧
       ((∃ r, (s.ep a).inflight i = some r ∧ r.host = host ∧ r.msg = m) ∨
        (∃ b d, (s.ep a).hosts0 host = some b ∧ d ∈ (s.ep b).delivered ∧ d.syn = some (i, a) ∧
-          d.body = Parsed.msg (Msg.app m))) := by
+          d.body = bodyOf m)) := by
   have hi := Aux.reachable_inv h
   rcases hi.infl a i hlt with hsome | ⟨host, m, b, hl, h0, hack⟩
   · cases hr : (s.ep a).inflight i with
@@ -325,11 +332,11 @@ theorem c06_ack_only_after_delivery {s : Sys} (h : Reachable s) (a i : Nat)
     exact ⟨b, d, hd, hs, (Aux.accounted_perm (Aux.reachable_invA h) b).mem_iff.mpr hd⟩
   rcases hack with hk | hk | ⟨sy, hk⟩
   · rcases hi.wire_net _ hk with ⟨a', i', m, hh, heq, _, _⟩ | ⟨i', b, heq, hb⟩ | ⟨m, heq⟩
-    · simp [ackFrames, dataFrames] at heq
+    · exact absurd heq.symm (dataFrames_ne_ack _ _ _ _)
     · simp [ackFrames] at heq; subst heq; exact hacc b hb
     · simp [ackFrames] at heq
   · rcases hi.wire_inbox a _ hk with ⟨a', i', m, hh, heq, _, _⟩ | ⟨i', b, heq, hb⟩ | ⟨m, heq⟩
-    · simp [ackFrames, dataFrames] at heq
+    · exact absurd heq.symm (dataFrames_ne_ack _ _ _ _)
     · simp [ackFrames] at heq; subst heq; exact hacc b hb
     · simp [ackFrames] at heq
   · obtain ⟨c, hc⟩ := hi.batch_ok a _ i hk rfl
@@ -561,8 +568,8 @@ example :
 /-! ### one surviving copy suffices -/
 
 /-- **Delivery if one copy survives.**
-(1) If the Listener of `b` processes a data frame `[Syn(i,a), m]` — some transmission survived
-the network — then an `Ack(i)` to `a` is emitted and from then on, whatever happens (further
+(1) If the Listener of `b` processes a data frame list `dataFrames i a m` (`[Syn(i,a), m]` or, for
+a payload, `[Syn(i,a), header, value]`) — some transmission survived the network — then an `Ack(i)` to `a` is emitted and from then on, whatever happens (further
 duplicates, retries, anything), `b` has accepted exactly one message under `Syn(i, a)`, it is `m`,
 and it is accounted for exactly once at `b` (handed over, waiting, or discarded by an abandoned
 iteration).
@@ -588,9 +595,9 @@ theorem c06_delivers_if_one_survives {s : Sys} (h : Reachable s) :
     have hok := hi.wire_inbox b _ (by rw [hin]; exact List.mem_cons_self)
     have hlog : ∃ host, (s.ep a).log i = some (host, m) := by
       rcases hok with ⟨a', i', m', hh, heq, hl, _⟩ | ⟨i', c, heq, _⟩ | ⟨m', heq⟩
-      · simp [dataFrames] at heq; obtain ⟨⟨rfl, rfl⟩, rfl⟩ := heq; exact ⟨hh, hl⟩
-      · simp [dataFrames, ackFrames] at heq
-      · simp [dataFrames] at heq
+      · obtain ⟨rfl, rfl, rfl⟩ := dataFrames_inj heq; exact ⟨hh, hl⟩
+      · exact absurd heq (dataFrames_ne_ack _ _ _ _)
+      · exact absurd heq (dataFrames_ne_local _ _ _ _)
     obtain ⟨host, hlog⟩ := hlog
     have hack1 : ((collect s b).ep b).acked i a = true := by
       cases hack : (s.ep b).acked i a with
@@ -625,6 +632,146 @@ example :
        .collect 0, .process 0 true false, .deliver 0, .collect 1, .tick 0 5000, .retry 0]
     deliveredUnder s 1 0 0 = 1 ∧ (s.ep 1).handled = [dlv 0 0 7] ∧ ((s.ep 0).inflight 0).isSome = false ∧
       (s.ep 0).sends 0 = 2 ∧ (s.ep 0).raised = false := by
+  decide
+
+/-! ### both wire shapes: deduplication does not depend on the frame shape -/
+
+/-- **Dedup is independent of the wire shape.** `_recv_one` on a Syn followed by either wire shape
+(`.plain`: one pickled frame, `ReliableSender.send`; `.data`: header + value, `send_data`): the Ack
+always goes out; if the Syn was seen before, nothing is returned and nothing recorded; otherwise
+the Syn IS RECORDED and the content returned. Whether the Syn is recorded, whether an Ack goes out
+and whether the message is dropped as a duplicate is the same for any two shapes (and any two
+contents) under the same Syn. -/
+theorem c06_dedup_shape_independent (acked : Nat → Nat → Bool) (i a m m' : Nat) :
+    (∀ sh : Shape,
+      (recvOne acked (.syn i a :: wireBody sh m)).ack = some (a, i) ∧
+      (acked i a = true →
+        (recvOne acked (.syn i a :: wireBody sh m)).res = .ok none ∧
+        (recvOne acked (.syn i a :: wireBody sh m)).mark = none) ∧
+      (acked i a = false →
+        (recvOne acked (.syn i a :: wireBody sh m)).mark = some (i, a) ∧
+        (recvOne acked (.syn i a :: wireBody sh m)).res = .ok (some (parsedBody sh m)))) ∧
+    (∀ sh sh' : Shape,
+      (recvOne acked (.syn i a :: wireBody sh m)).mark = (recvOne acked (.syn i a :: wireBody sh' m')).mark ∧
+      (recvOne acked (.syn i a :: wireBody sh m)).ack = (recvOne acked (.syn i a :: wireBody sh' m')).ack ∧
+      ((recvOne acked (.syn i a :: wireBody sh m)).res = .ok none ↔
+        (recvOne acked (.syn i a :: wireBody sh' m')).res = .ok none)) ∧
+    (recvOne acked (.syn i a :: wireBody .plain m)).mark = (recvOne acked (.syn i a :: wireBody .data m')).mark ∧
+    (recvOne acked (.syn i a :: wireBody .plain m)).ack = (recvOne acked (.syn i a :: wireBody .data m')).ack ∧
+    ((recvOne acked (.syn i a :: wireBody .plain m)).res = .ok none ↔
+      (recvOne acked (.syn i a :: wireBody .data m')).res = .ok none) := by
+  have key : ∀ (sh sh' : Shape),
+      (recvOne acked (.syn i a :: wireBody sh m)).mark = (recvOne acked (.syn i a :: wireBody sh' m')).mark ∧
+      (recvOne acked (.syn i a :: wireBody sh m)).ack = (recvOne acked (.syn i a :: wireBody sh' m')).ack ∧
+      ((recvOne acked (.syn i a :: wireBody sh m)).res = .ok none ↔
+        (recvOne acked (.syn i a :: wireBody sh' m')).res = .ok none) := by
+    intro sh sh'
+    simp only [recvOne_syn_wireBody]
+    cases acked i a <;> simp
+  refine ⟨?_, key, key .plain .data⟩
+  intro sh
+  simp only [recvOne_syn_wireBody]
+  cases acked i a <;> simp
+
+/-- **`collect` records the Syn, whatever the shape.** In ANY state (no reachability needed): when
+`_recv_one` at `b` takes an acknowledged message `dataFrames i a m` off the queue — two frames or,
+for a payload id, three — afterwards `Syn(i, a)` is in `b`'s `acked` set, an `Ack(i)` to `a` has
+been put on the wire, and the frame list has left the queue. -/
+theorem c06_collect_records_syn (s : Sys) (b i a m : Nat) (rest : List (List Frame))
+    (hin : (s.ep b).inbox = dataFrames i a m :: rest) :
+    ((collect s b).ep b).acked i a = true ∧
+    (collect s b).net = s.net ++ [⟨a, ackFrames i⟩] ∧
+    ((collect s b).ep b).inbox = rest ∧
+    ((collect s b).ep b).errors = (s.ep b).errors := by
+  refine ⟨?_, collect_data_net hin, ?_, ?_⟩
+  · cases hack : (s.ep b).acked i a with
+    | true => rw [collect_data_dup_ep hin hack]; exact hack
+    | false => rw [collect_data_new_ep hin hack]; simp
+  · cases hack : (s.ep b).acked i a with
+    | true => rw [collect_data_dup_ep hin hack]; simp
+    | false => rw [collect_data_new_ep hin hack]; simp
+  · cases hack : (s.ep b).acked i a with
+    | true => rw [collect_data_dup_ep hin hack]
+    | false => rw [collect_data_new_ep hin hack]
+
+/-- **The second copy is dropped, whatever the shapes.** In ANY state: if the queue of `b` holds an
+acknowledged message under `Syn(i, a)` and behind it another frame list under the same Syn (a
+duplicate made by the network or a retransmission: `m' = m`; the statement holds for any content
+and any shape `m'`), then the second `_recv_one` adds nothing to the batch, nothing to `delivered`,
+does not raise, leaves `acked` as it is, and sends a second `Ack(i)` to `a`. -/
+theorem c06_second_copy_dropped (s : Sys) (b i a m m' : Nat) (rest : List (List Frame))
+    (hin : (s.ep b).inbox = dataFrames i a m :: dataFrames i a m' :: rest) :
+    let s1 := collect s b
+    let s2 := collect s1 b
+    (s2.ep b).batch = (s1.ep b).batch ∧ (s2.ep b).delivered = (s1.ep b).delivered ∧
+    (s2.ep b).acked = (s1.ep b).acked ∧ (s2.ep b).errors = (s1.ep b).errors ∧
+    (s2.ep b).inbox = rest ∧
+    s2.net = s.net ++ [⟨a, ackFrames i⟩, ⟨a, ackFrames i⟩] := by
+  intro s1 s2
+  obtain ⟨hack1, hnet1, hin1, _⟩ := c06_collect_records_syn s b i a m _ hin
+  have hnet2 : s2.net = s1.net ++ [⟨a, ackFrames i⟩] := collect_data_net hin1
+  have hep : s2.ep b = { s1.ep b with inbox := rest } := by
+    have := collect_data_dup_ep hin1 hack1 b
+    simpa using this
+  refine ⟨by rw [hep], by rw [hep], by rw [hep], by rw [hep], by rw [hep], ?_⟩
+  rw [hnet2, hnet1, List.append_assoc]; rfl
+
+/-- **A DatasetTransmitPayload is accepted and handed over at most once** (history level). For a
+payload message (`dataBase ≤ m`: it travels as `[Syn, header, value]`) accepted by `a`'s sender
+under idx `i` for endpoint `b`, in every reachable state: `b`'s Listener accepted at most one
+message under `Syn(i, a)`; whatever it accepted under that Syn is exactly the payload
+(`Parsed.payload m (.msg (.app m))`); and over everything owed to `b`'s application (handed over,
+waiting, discarded) the Syn occurs at most once, with exactly that payload as content — however
+many copies the network or the retransmission timer produced. -/
+theorem c06_payload_exactly_once_listener {s : Sys} (h : Reachable s) (a i b host m : Nat)
+    (hm : dataBase ≤ m) (hl : (s.ep a).log i = some (host, m)) (_h0 : (s.ep a).hosts0 host = some b) :
+    deliveredUnder s b i a ≤ 1 ∧
+    (∀ d ∈ (s.ep b).delivered, d.syn = some (i, a) → d.body = Parsed.payload m (.msg (.app m))) ∧
+    ((accountedAt s b).filterMap (·.syn)).count (i, a) ≤ 1 ∧
+    (∀ d ∈ accountedAt s b, d.syn = some (i, a) →
+      d = ⟨some (i, a), Parsed.payload m (.msg (.app m))⟩) := by
+  obtain ⟨hnd, hbody⟩ := c06_at_most_once h b
+  obtain ⟨hnd', hbody'⟩ := c06_app_at_most_once h b
+  refine ⟨?_, ?_, ?_, ?_⟩
+  · unfold deliveredUnder; rw [hnd.count]; split <;> omega
+  · intro d hd hs
+    obtain ⟨host', m', hl', _, hb⟩ := hbody d hd i a hs
+    rw [hl] at hl'; cases hl'
+    rw [hb, bodyOf_data hm]
+  · rw [hnd'.count]; split <;> omega
+  · intro d hd hs
+    obtain ⟨host', m', hl', _, hb⟩ := hbody' d hd i a hs
+    rw [hl] at hl'; cases hl'
+    rw [hb, dlv, bodyOf_data hm]
+
+/-- non-vacuity: the wire of a payload send is three frames; of an ordinary send, two -/
+example :
+    (run (init 20 (fun a => (800, lookup (if a = 0 then [(1, 1)] else [(0, 0)])))) [.send 0 1 1000007]).net
+      = [⟨1, [.syn 0 0, .hdr 1000007, .msg (.app 1000007)]⟩] ∧
+    (run (init 20 (fun a => (800, lookup (if a = 0 then [(1, 1)] else [(0, 0)])))) [.send 0 1 7]).net
+      = [⟨1, [.syn 0 0, .msg (.app 7)]⟩] := by
+  decide
+
+/-- non-vacuity: a payload whose first copy, a network duplicate of the retransmission and the
+retransmission itself all arrive: three copies received, ONE accepted (as header + value), three
+Acks; the loop body is handed it once -/
+example :
+    let s := run (init 20 (fun a => (800, lookup (if a = 0 then [(1, 1)] else [(0, 0)]))))
+      [.send 0 1 1000007, .tick 0 801, .retry 0, .deliver 0, .dup 0, .deliver 0,
+       .collect 1, .collect 1, .collect 1]
+    let s' := run s [.process 1 true false, .process 1 true false]
+    (s.ep 1).delivered.map (·.body) = [Parsed.payload 1000007 (.msg (.app 1000007))] ∧
+    s.net.length = 3 ∧ (s.ep 1).inbox = [] ∧ (s.ep 1).errors = 0 ∧ deliveredUnder s 1 0 0 = 1 ∧
+    (s.ep 1).batch = [dlv 0 0 1000007] ∧
+    (s'.ep 1).handled.length = 1 ∧ (s'.ep 1).handled = [dlv 0 0 1000007] ∧ (s'.ep 1).batch = [] := by
+  decide
+
+/-- non-vacuity of `c06_second_copy_dropped` with two DIFFERENT shapes under one Syn: a payload,
+then a one-frame message under the same (forged) Syn — the second is swallowed -/
+example :
+    let s := runF (init 20 (fun a => (800, lookup (if a = 0 then [(1, 1)] else [(0, 0)]))))
+      [.inject 1 (dataFrames 0 0 1000007), .inject 1 (dataFrames 0 0 7), .op (.collect 1), .op (.collect 1)]
+    (s.ep 1).delivered.map (·.body) = [Parsed.payload 1000007 (.msg (.app 1000007))] ∧ s.net.length = 2 := by
   decide
 
 /-! ### the frame-sequence parser -/
